@@ -1146,17 +1146,21 @@ func funMin(nums ...*decimal.Big) (*decimal.Big, error) {
 }
 
 func funRound(v *decimal.Big) (*decimal.Big, error) {
-	return newDecimalBig().Round(0), nil
+	return roundToInt(v, decimal.ToNearestAway), nil
 }
 
 func funRoundBank(v *decimal.Big) (*decimal.Big, error) {
-	// 将 v 的小数部分提取出来
-	mv := newDecimalBig().Rem(v, decimal.New(1, 0))
-	if mv.Cmp(decimal.New(5, -1)) <= 0 {
-		return funCeil(v)
-	} else {
-		return funFloor(v)
+	return roundToInt(v, decimal.ToNearestEven), nil
+}
+
+func roundToInt(v *decimal.Big, mode decimal.RoundingMode) *decimal.Big {
+	result := newDecimalBig()
+	if result.CheckNaNs(v, nil) {
+		return result
 	}
+	ctx := decimal.Context128
+	ctx.RoundingMode = mode
+	return ctx.RoundToInt(result.Copy(v))
 }
 
 func funRoundCash(v, places *decimal.Big) (*decimal.Big, error) {
